@@ -1,5 +1,5 @@
 (* C15 -- Observe accounting: sequence strictly increases; eviction exactly past limit. *)
-From CoapV Require Import Base Header Packet UintOpt Observe Suite14 proofs.P14.
+From CoapV Require Import Base Header Packet UintOpt Observe Suite14 proofs.P14 proofs.P15b.
 
 (* a round on an observed resource: sequence + 1; every observer gets the message id and, when
    confirmable, one more unacknowledged notification; exactly those whose count exceeds the limit are dropped.
@@ -22,6 +22,19 @@ Theorem C15_ack_exact : forall e mid l, NoDup (map oe l) ->
   ack_obs e mid l = map (fun x => if ack_match e mid x then mkObs (oe x) (otok x) 0 None else x) l.
 Proof. exact ack_obs_spec. Qed.
 Print Assumptions C15_ack_exact.
+
+(* projected on one (endpoint, path) pair the registry IS the four-field automaton pair_step: absent, or present with
+   (token, confirmable notifications since the last acknowledgement or registration, pending id).  In particular the
+   observer is dropped exactly when that count exceeds the limit in force at the round, non-confirmable rounds never
+   count, an acknowledgement from the same endpoint for the pending id resets the count, and nothing else touches it *)
+Theorem C15_projection : forall s o s' e p, Inv s -> step s o = Ok s' ->
+  proj s' e p = pair_step (proj s e p) o (limit s) e p.
+Proof. exact projection. Qed.
+Print Assumptions C15_projection.
+Theorem C15_projection_run : forall ops s s' e p, Inv s -> run_ops s ops = Ok s' ->
+  proj s' e p = pair_run (proj s e p) (limit s) ops e p.
+Proof. exact projection_run. Qed.
+Print Assumptions C15_projection_run.
 
 (* counting never overflows, whatever the limit (0..255) and however long the history:
    the per-observer counter stays <= 255 after every operation ... *)
